@@ -19,6 +19,7 @@
 #define OVX(f) (!(g_has_lo && g_xb > LU(f)) && !(g_has_hi && g_xe < SU(f)))
 #define INSIDE(f) ((!g_has_lo || SU(f) >= g_xb) && (!g_has_hi || LU(f) <= g_xe))
 
+static void icmp_hook(const ldb_slice_t *x, const ldb_slice_t *y, int res) { (void)x; (void)y; (void)res; }
 static void push_hook(const void *x) { (void)x; }
 static void push_other_hook(void) {
   __CPROVER_assert(OVX(g_fo), "get_overlapping_inputs: a file is added only if it overlaps the current range (none other)");
